@@ -422,11 +422,16 @@ def stepOld (st0 : St) (ts : List String) : St × String :=
       let r := readLine readLineChunk h.rs
       ({ st with sess := some { h with rs := r.2 } }, s!"{b01 r.1.2} {showBytes r.1.1} {b01 r.2.eof}")
   | ["rlc", b] => match unhex b with
-    | some [delim] => readSess st fun h =>
-      if !h.isText then (st, "err kind") else
-      if hasNul h.all then (st, "err nul") else
-      let r := readLineDelim delim h.rs
-      ({ st with sess := some { h with rs := r.2 } }, s!"{showBytes r.1} {b01 r.2.eof}")
+    | some [delim] =>
+      -- readLine(char) is offered in every mode: on an object opened for writing it must come back empty-handed
+      match st.sess with
+      | none => (st, "err nosession")
+      | some h =>
+        if !h.isText then (st, "err kind") else
+        if h.mode == .rw then (st, "err mode") else
+        if h.mode == .read && hasNul h.all then (st, "err nul") else
+        let r := hreadLineDelim h delim
+        ({ st with sess := some r.2 }, s!"{showBytes r.1} {b01 r.2.rs.eof}")
     | _ => (st, "bad-op")
   | ["end"] => readSess st fun h => (st, b01 h.rs.eof)
   | ["seek", k] => match k.toNat? with
@@ -493,6 +498,18 @@ def stepOld (st0 : St) (ts : List String) : St × String :=
     | none => (st, "bad-op")
   | ["xtext", b] => match parseBytes b with
     | some bs => let d := st.disk.set 0 (some bs); ({ st with disk := d }, textStr d 0)
+    | none => (st, "bad-op")
+  | ["xdirrlc"] =>
+    -- readLine(char) of a directory: the first read fails, the empty string comes back (transcribed constant)
+    (st, showBytes [])
+  | ["xwrlc", b] => match parseBytes b with
+    | some bs =>
+      let d0 := st.disk.set 0 none
+      let w := (Obj.new 0 true).twrite d0 .write bs
+      let s1 := match w.2.2.file with | some h => (hreadLineDelim h 10).1 | none => []
+      -- after close(): readLine(char) opens the file for reading itself
+      let s2 := match (openH w.2.1 0 true .read).1 with | some h => (hreadLineDelim h 10).1 | none => []
+      ({ st with disk := w.2.1 }, s!"{showBytes s1} {if hasNul bs then "err nul" else showBytes s2}")
     | none => (st, "bad-op")
   | ["xdirlines"] =>
     -- lines() of a directory: `fopen` succeeds, the first `fgets` fails with the error indicator set and the loop stops
